@@ -64,6 +64,8 @@ def smWellFormed (h : SM) : Bool :=
   (List.range h.ncols).all (fun c => decide (h.col c).Nodup)
 
 def illFormed (h : SM) : Option String :=
+  -- (quadratic in the list-based representation: not evaluated on the very wide matrices of the C01 harness)
+  if h.ncols > 5000 then none else
   if smWellFormed h then none else some "the-parity-check-matrix-object-is-not-a-set-of-positions (adjacency lists inconsistent or with duplicates)"
 
 /-- C01 predicate on one implementation result.  C01 constrains the *results* of `decode`; a call that panics
@@ -95,6 +97,7 @@ def firstSome {α : Type} : List (Option α) → Option α
 
 /-- model results for an implementation name (only the 20 8-bit names have an exact model) -/
 def modelFor (name : String) (h : SM) (calls : List (List UInt64 × Nat)) : Option (List String) :=
+  if h.ncols > 5000 then none else      -- predicate only
   match Factory.parse name with
   | none => none
   | some i =>
